@@ -103,7 +103,7 @@ def _treetrace(ctx, quick, cov, ext_rounds):
 
 
 def _selftest_tree(ctx, results):
-    """Binding demonstration: flip one logged consult verdict; TraceTree.tla must object."""
+    """Binding demonstration: drop one ancestor from a logged result chain; TraceTree.tla must object."""
     src = results[0]["trace_file"]
     lines = open(src).readlines()
     out = []
@@ -111,20 +111,19 @@ def _selftest_tree(ctx, results):
     for ln in lines[:400]:
         if not done and '"ev":"detect"' in ln:
             rec = json.loads(ln)
-            acc = [i for i, c in enumerate(rec["consults"]) if c[1] == 1]
-            if acc and not rec["err"]:
-                rec["consults"][acc[0]][1] = 0
+            if len(rec["chain"]) >= 3 and not rec["err"]:
+                rec["chain"] = rec["chain"][:1] + rec["chain"][2:]      # drop one ancestor from the logged result
                 ln = json.dumps(rec) + "\n"
                 done = True
         out.append(ln)
     if not done:
-        return "skipped (no accepting consult in the first records)"
+        return "skipped (no result with three levels in the first records)"
     tf = os.path.join(ctx.scratch, "selftest-tree.ndjson")
     open(tf, "w").writelines(out)
     r = ctx.tlc("TraceTree.tla", "TraceTree.cfg", workers=1, env={"TRACE": tf}, xmx="3g", tag="selftest-tree")
     if not any(t[0] == "VIOLATION" and t[1] == "C03" for t in r["tuples"]):
-        raise core.Infra("self-test: a corrupted consult verdict was NOT rejected by TraceTree.tla")
-    return "corrupted consult verdict rejected"
+        raise core.Infra("self-test: a corrupted result chain was NOT rejected by TraceTree.tla")
+    return "corrupted result chain rejected"
 
 
 def c03(ctx):
